@@ -82,6 +82,8 @@ CFGS = [
     ('namechars-plus', {'namechars': '+'}, {'namechars': "'+'"}, {}),
     ('ignorecase', {'ignorecase': True, 'eolc': '#', 'cmt': ('(*', '*)')},
      {'ignorecase': 'True', 'eol_comments': '/(?m)#.*?$/', 'comments': '/\\(\\*.*?\\*\\)/'}, {}),
+    ('namechars-nameguard-off', {'namechars': '+', 'nameguard': False}, {'namechars': "'+'", 'nameguard': 'False'}, {}),
+    ('namechars-nameguard-off-setting', {'namechars': '+', 'nameguard': False}, {'namechars': "'+'"}, {'nameguard': False}),
     ('ws-with-comma', {'ws': [' ', '\t', '\n', '\r', ','], 'eolc': '#', 'cmt': ('(*', '*)')},
      {'whitespace': '/[\\s,]+/', 'eol_comments': '/(?m)#.*?$/', 'comments': '/\\(\\*.*?\\*\\)/'}, {}),
     ('comments-opening-like-a-token', {'eolc': '++', 'cmt': ('+*', '*+')},
@@ -159,8 +161,8 @@ def run(tier):
     part_b(ck, tier)
     part_a(ck, tier)
     ck.cov['rule'] = ('(A) 11 token grammars (tokens, closure, named, pattern after token, pattern in lower-case rule, upper-case token '
-                      'rule, constant/void, lower-case rule calls, no $, name-like tokens) x 10 configurations (comments as directives / as '
-                      'settings, none, blank-only whitespace, whitespace off, nameguard off, namechars, ignorecase, whitespace that also matches a comma, comment openers that begin like a token) x every layout of token '
+                      'rule, constant/void, lower-case rule calls, no $, name-like tokens) x 12 configurations (comments as directives / as '
+                      'settings, none, blank-only whitespace, whitespace off, nameguard off, namechars, namechars with nameguard off, ignorecase, whitespace that also matches a comma, comment openers that begin like a token) x every layout of token '
                       'sequences <=3 (+6) with every gap kind in every slot; model + generated parser.  (B) every combination of '
                       'compile/directive/parse layer values for 8 settings x {model, generated parser, tatsu.parse, parser class of the generated model source (constructor settings as the lowest layer)}. non-trivial = accepted layout '
                       'with distinct (grammar, cfg, AST) / a layer point with at least one layer present')
